@@ -299,7 +299,15 @@ def rule_table(ctx):
       probs.append("step does not add base to the previous element")
   for info in w.loop_info.values():
     for vis in info.get("visits", []):
-      if as_poly(vis["iter"]) != sym.mk("range", Poly.const(1), k):
+      ra_ = as_poly(vis["iter"]).as_atom() if isinstance(vis["iter"], Poly) else None
+      rr_ = [as_poly(x_) for x_ in ra_.args] if ra_ is not None and ra_.kind == "range" else None
+      if rr_ is None or (len(rr_) == 3 and rr_[2].as_int() != 1):
+        probs.append("loop is not range(1, n)")
+        continue
+      lo_, hi_ = (Poly.const(0), rr_[0]) if len(rr_) == 1 else (rr_[0], rr_[1])
+      kk_ = as_poly(vis["k"])
+      # any spelling of "indices 1 .. n-1, one per pass": n - 1 passes, pass t (0-based) stores element t + 1
+      if not (hi_ - lo_ - (k - 1)).is_zero() or not all((as_poly(e.data["index"]) - kk_ - 1).is_zero() for e in inl):
         probs.append("loop is not range(1, n)")
   rets = [e for e in w.events if e.kind == "return" and e.node is not None]
   if not all(as_poly(e.data["value"]).as_atom() is not None and as_poly(e.data["value"]).as_atom().kind == "mcall" and as_poly(e.data["value"]).as_atom().args[1] == lit("BatchJacobianToAffine") for e in rets):
@@ -382,7 +390,7 @@ def rule_forms(ctx):
     v = e.data["args"][0]
     if isinstance(v, (Seq, Const, tuple)):
       continue
-    v = as_poly(v)
+    v = sym.resolve_sums(w, as_poly(v))          # a multiplier accumulated by an inner loop reads as the sum it computes
     loops_of = [i_ for i_ in w.loop_info.values() if any(x is e.node for x in ast.walk(i_["node"])) and i_["visits"]]
     if len(loops_of) != 1 or isinstance(loops_of[0]["visits"][0]["iter"], Seq):
       continue
@@ -464,6 +472,15 @@ def rule_forms(ctx):
           lens = [a for a in size.atoms() if a.kind == "len"]
           if len(lens) == 2 and (size - Poly.atom(lens[0]) * Poly.atom(lens[1])).is_zero() and any(as_poly(a.args[0]) == points for a in lens):
             oka = True
+  # ... or the list is filled by two nested loops appending once per (multiplier, point): slot k_outer * len(points) + k_inner
+  if not oka:
+    npts_ = sym.mk("len", points)
+    for e in w.events:
+      if e.kind == "store" and e.data.get("synthetic"):
+        idx_ = as_poly(e.data["index"])
+        ks_ = [a for a in idx_.atoms() if a.kind == "sym"]
+        if len(ks_) == 2 and any((idx_ - (Poly.atom(x) * npts_ + Poly.atom(y))).is_zero() for x in ks_ for y in ks_ if x != y):
+          oka = True
   ctx.record(R, f.where, "every (multiplier, point) pair enumerated", not exits and oka, "len(multipliers) * len(points) slots, nested loops without exits" if not exits and oka else
              "pair enumeration incomplete")
 
